@@ -272,9 +272,9 @@ def self_test():
 
 
 LAWS = [
-    given_law("group", group_cases(), group_body, {"quick": 300, "thorough": 1500}),
-    given_law("differential", diff_cases(), diff_body, {"quick": 400, "thorough": 2500}),
-    given_law("gaussian", gauss_cases((32, 64)), gauss_body, {"quick": 250, "thorough": 800}),
-    given_law("gaussian_large", gauss_cases((128,)), gauss_body, {"quick": 12, "thorough": 100}),
+    given_law("group", group_cases(), group_body, {"quick": 300, "thorough": 3750}, shards={"quick": 3, "thorough": 16}),
+    given_law("differential", diff_cases(), diff_body, {"quick": 400, "thorough": 6250}, shards={"quick": 3, "thorough": 16}),
+    given_law("gaussian", gauss_cases((32, 64)), gauss_body, {"quick": 250, "thorough": 2000}, shards={"quick": 3, "thorough": 16}),
+    given_law("gaussian_large", gauss_cases((128,)), gauss_body, {"quick": 12, "thorough": 250}, shards={"quick": 3, "thorough": 16}),
     plain_law("airy", airy_cases, airy_body),
 ]
